@@ -1,4 +1,5 @@
-(* C11 -- the windowed stream: specification vocabulary, the invariant of a run, what consumers log. *)
+(* C11 -- the windowed stream: specification vocabulary, the window instance of the generic invariant,
+   window_spec and what consumers log. *)
 From Coq Require Import ZArith NArith Bool String List Lia.
 Require Import PV.Base.Val PV.Gen.Window PV.Model.Window PV.Proofs.Window.
 Import ListNotations.
@@ -6,9 +7,6 @@ Open Scope Z_scope.
 Open Scope list_scope.
 
 (* ---------- specification vocabulary ---------- *)
-(* the RDD the queue source yields in interval i+1: the (i+1)-th queued batch, EmptyRDD once exhausted *)
-Definition src_rdd (q : list (list val)) (i : nat) : rdd :=
-  match nth_error q i with Some b => RData b | None => REmpty end.
 Definition src_rdds (q : list (list val)) (n : nat) : list rdd := map (src_rdd q) (seq 0 n).
 (* the last k elements *)
 Definition lastn {A} (k : nat) (l : list A) : list A := skipn (length l - k) l.
@@ -22,26 +20,10 @@ Fixpoint win_rdd_spec (q : list (list val)) (w s : Z) (n : nat) : rdd :=
   | O => RNone
   | S m => if Z.of_nat (S m) mod s =? 0 then union_data (win_buf q w (S m)) else win_rdd_spec q w s m
   end.
-
-Definition src_state (q : list (list val)) (n : nat) (T : Z) : nstate :=
-  mkN T (match n with O => RNone | S m => src_rdd q m end) (skipn n q) [] win_counter_init [].
 Definition win_state (q : list (list val)) (w s : Z) (n : nat) (T : Z) : nstate :=
   mkN T (win_rdd_spec q w s n) [] (win_buf q w n) (Z.of_nat n mod s) [].
 
 (* ---------- lists ---------- *)
-Lemma skipn_step {A} n (q : list A) :
-  match skipn n q with
-  | [] => nth_error q n = None /\ skipn (S n) q = []
-  | b :: r => nth_error q n = Some b /\ skipn (S n) q = r
-  end.
-Proof.
-  revert q; induction n as [|n IH]; intros [|x q].
-  - split; reflexivity.
-  - split; reflexivity.
-  - split; reflexivity.
-  - exact (IH q).
-Qed.
-
 Lemma trim_spec w l : trim w l = lastn (Z.to_nat w) l.
 Proof.
   unfold lastn. induction l as [|a tl IH]; [reflexivity|].
@@ -86,16 +68,6 @@ Qed.
 Lemma win_buf_S q w n : trim w (win_buf q w n ++ [src_rdd q n]) = win_buf q w (S n).
 Proof. unfold win_buf. rewrite trim_spec, src_rdds_S. apply lastn_snoc. Qed.
 
-Lemma src_pop_state q n T t : src_pop (set_time t (src_state q n T)) = src_state q (S n) t.
-Proof.
-  unfold src_state, set_time, src_pop; cbn [nqueue ntime nrdd nbuf nctr nkv].
-  pose proof (skipn_step n q) as H. unfold src_rdd.
-  destruct (skipn n q) as [|b r]; destruct H as [H1 H2]; rewrite H1, H2; reflexivity.
-Qed.
-
-Lemma src_rdd_not_none q i : is_none_rdd (src_rdd q i) = false.
-Proof. unfold src_rdd. destruct (nth_error q i); reflexivity. Qed.
-
 Lemma existsb_skipn {A} (f : A -> bool) n l : existsb f l = false -> existsb f (skipn n l) = false.
 Proof.
   revert l; induction n as [|n IH]; intros [|x l] H; cbn [skipn]; auto.
@@ -132,175 +104,38 @@ Proof.
   - reflexivity.
 Qed.
 
-(* ---------- a windowed stream on a queue source, any streams registered after them ---------- *)
-Section WindowAnyTail.
-Variables (q : list (list val)) (w s : Z) (tail : list node).
+
+Section WindowInstance.
+Variables (q : list (list val)) (w s : Z).
 Hypothesis Hs : 0 < s.
-Local Notation g := (Src q :: Window w s 0 :: tail).
 
-Definition WInv (n : nat) (T : Z) (st : gstate) : Prop :=
-  nth_error (gnodes st) 0 = Some (src_state q n T) /\ nth_error (gnodes st) 1 = Some (win_state q w s n T).
-
-Lemma winv_init : WInv 0 0 (init_state g).
+Lemma win_S1_step : forall F tail st n T t,
+  nth_error (gnodes st) 0 = Some (src_state q (S n) t) -> nth_error (gnodes st) 1 = Some (win_state q w s n T) ->
+  T < t ->
+  step (S (S F)) (Src q :: Window w s 0 :: tail) 1 t st = (put 1 (win_state q w s (S n) t) st, None).
 Proof.
-  split; cbn; unfold src_state, win_state, n_init, set_queue; cbn.
-  - reflexivity.
-  - unfold win_buf, lastn. cbn. reflexivity.
-Qed.
-
-(* the first two steps of a tick *)
-Lemma winv_two_steps n T t st F :
-  WInv n T st -> T < t ->
-  exists st2, tick_nodes (S (S F)) g [0%nat; 1%nat] t st = (st2, None) /\ WInv (S n) t st2
-              /\ glog st2 = glog st /\ length (gnodes st2) = length (gnodes st)
-              /\ (forall j, (2 <= j)%nat -> nth_error (gnodes st2) j = nth_error (gnodes st) j).
-Proof.
-  intros [H0 H1] Ht. cbn [tick_nodes].
-  rewrite (step_src_go _ g 0 t st q _ eq_refl H0) by (cbn; lia).
-  rewrite src_pop_state.
-  set (st1 := put 0 (src_state q (S n) t) st).
-  assert (H0' : nth_error (gnodes st1) 0 = Some (src_state q (S n) t)) by (apply (nth_put_eq _ _ _ _ H0)).
-  assert (H1' : nth_error (gnodes st1) 1 = Some (win_state q w s n T)) by (unfold st1; rewrite nth_put_neq; auto).
-  rewrite (step_window_go F g 1 t st1 w s 0 _ (Src q) _ eq_refl H1' ltac:(cbn; lia) eq_refl H0' ltac:(cbn; lia)).
+  intros F tail st n T t H0 H1 Ht.
+  rewrite (step_window_go F (Src q :: Window w s 0 :: tail) 1 t st w s 0 _ (Src q) _ eq_refl H1 ltac:(cbn; lia) eq_refl H0 ltac:(cbn; lia)).
   replace (nrdd (src_state q (S n) t)) with (src_rdd q n) by reflexivity.
-  rewrite window_post_state by assumption.
-  eexists; split; [reflexivity|]. split; [split|split; [|split]].
-  - rewrite nth_put_neq; auto.
-  - apply (nth_put_eq _ _ _ _ H1').
-  - reflexivity.
-  - unfold st1. rewrite !put_nodes, !upd_length. reflexivity.
-  - intros j Hj. unfold st1. rewrite !nth_put_neq by lia. reflexivity.
+  now rewrite window_post_state.
 Qed.
 
-Lemma winv_tick n T t st : WInv n T st -> T < t -> WInv (S n) t (fst (tick g t st)).
-Proof.
-  intros HI Ht. unfold tick. cbn [length seq].
-  change (0%nat :: 1%nat :: seq 2 (length tail)) with ([0%nat; 1%nat] ++ seq 2 (length tail)).
-  set (F := length tail).
-  destruct (winv_two_steps n T t st F HI Ht) as (st2 & E & [I0 I1] & _).
-  assert (Happ : forall fuel gg a b tt s0,
-    tick_nodes fuel gg (a ++ b) tt s0 =
-    (let '(s1, e) := tick_nodes fuel gg a tt s0 in match e with Some _ => (s1, e) | None => tick_nodes fuel gg b tt s1 end)).
-  { intros fuel gg a. induction a as [|i a IH]; intros b tt s0; [reflexivity|].
-    cbn [app tick_nodes]. destruct (step fuel gg i tt s0) as [s1 e]. destruct e; [reflexivity|]. apply IH. }
-  rewrite Happ, E.
-  split; apply tick_nodes_frozen; auto; cbn; lia.
-Qed.
+Lemma win_S1_init : init_node (Window w s 0) = win_state q w s 0 0.
+Proof. reflexivity. Qed.
 
-Lemma winv_run : forall ts n T st,
-  WInv n T st -> increasing T ts -> WInv (n + length ts) (last ts T) (fst (run_ticks g ts st)).
-Proof.
-  induction ts as [|t ts IH]; intros n T st HI Hinc.
-  - cbn. now rewrite Nat.add_0_r.
-  - destruct Hinc as [Ht Hinc]. rewrite run_ticks_cons, last_cons.
-    cbn [length]. rewrite <- Nat.add_succ_comm.
-    apply IH; auto. apply (winv_tick n T); auto.
-Qed.
+Definition win_two_steps tail :=
+  tinv_two_steps q (Window w s 0) (win_state q w s) win_S1_step tail.
+Definition win_tinv_init tail := tinv_init q (Window w s 0) (win_state q w s) win_S1_init tail.
 
-Lemma window_node_state ts :
-  increasing 0 ts ->
-  nth_error (gnodes (final g ts)) 1 = Some (win_state q w s (length ts) (last ts 0)).
-Proof.
-  intros Hinc. unfold final, run_graph.
-  exact (proj2 (winv_run ts 0%nat 0 _ winv_init Hinc)).
-Qed.
-End WindowAnyTail.
-
-Lemma consumers_from_length p j0 k : length (consumers_from p j0 k) = k.
-Proof. unfold consumers_from. now rewrite map_length, seq_length. Qed.
-
-Lemma consumers_from_nth p j0 k j : (j < k)%nat ->
-  nth_error (consumers_from p j0 k) j = Some (Trans (FCapture (Z.of_nat (j0 + j))) p).
-Proof.
-  intros H. unfold consumers_from. rewrite nth_error_map.
-  rewrite (nth_error_nth' _ 0%nat) by (now rewrite seq_length).
-  rewrite seq_nth by assumption. reflexivity.
-Qed.
-
-(* what the k consumers of a windowed stream log, tick after tick (n = intervals already elapsed) *)
-Fixpoint window_log (q : list (list val)) (w s : Z) (k : nat) (n : nat) (ts : list Z) : list logentry :=
-  match ts with
-  | [] => []
-  | t :: ts' => map (fun j => (t, Z.of_nat j, obs_of (win_rdd_spec q w s (S n)))) (seq 0 k)
-                ++ window_log q w s k (S n) ts'
-  end.
-
-Section WindowProgram.
-Variables (q : list (list val)) (w s : Z) (k : nat).
-Hypothesis Hs : 0 < s.
-Local Notation g := (prog_window q w s k).
-
-Definition PInv (n : nat) (T : Z) (st : gstate) : Prop :=
-  WInv q w s n T st /\ times_le T st /\ length (gnodes st) = S (S k).
-
-Lemma pinv_init : PInv 0 0 (init_state g).
-Proof.
-  split; [apply winv_init|]. split.
-  - intros i ns Hi. unfold init_state in Hi; cbn [gnodes] in Hi.
-    rewrite nth_error_map in Hi. destruct (nth_error g i) as [nd|]; [|discriminate].
-    cbn in Hi. inversion Hi; subst. destruct nd; cbn; unfold dstream_time_init; lia.
-  - unfold init_state; cbn [gnodes]. rewrite map_length. unfold prog_window, consumers. cbn [length].
-    now rewrite consumers_from_length.
-Qed.
-
-Lemma pinv_tick n T t st :
-  PInv n T st -> T < t ->
-  exists st', tick g t st = (st', None) /\ PInv (S n) t st' /\
-    glog st' = glog st ++ map (fun j => (t, Z.of_nat j, obs_of (win_rdd_spec q w s (S n)))) (seq 0 k).
-Proof.
-  intros (HI & Hle & Hlen) Ht.
-  pose proof (tick_nodes_times_le (length g) g t (seq 0 (length g)) st
-               (times_le_weaken T t st ltac:(lia) Hle)) as Hle'.
-  pose proof (tick_nodes_length (length g) g t (seq 0 (length g)) st) as Hlen'.
-  unfold tick in *. unfold prog_window, consumers in *. cbn [length seq] in *.
-  rewrite consumers_from_length in *.
-  change (0%nat :: 1%nat :: seq 2 k) with ([0%nat; 1%nat] ++ seq 2 k) in *.
-  destruct (winv_two_steps q w s (consumers_from 1 0 k) Hs n T t st k HI Ht)
-    as (st2 & E & [I0 I1] & Hlog2 & Hlen2 & Hoth2).
-  rewrite tick_nodes_app, E in *.
-  destruct (consumers_steps k (Src q :: Window w s 0 :: consumers_from 1 0 k) t 1 (Window w s 0)
-              (win_state q w s (S n) t) k 2 0 st2) as (st' & E' & Hlog' & Hoth' & Hlen'').
-  - intros j Hj. cbn [Nat.add nth_error]. now apply consumers_from_nth.
-  - reflexivity.
-  - exact I1.
-  - cbn. lia.
-  - intros j Hj. assert (Hex : (2 + j < length (gnodes st))%nat) by lia.
-    apply nth_error_Some in Hex. destruct (nth_error (gnodes st) (2 + j)) as [ns|] eqn:En; [|congruence].
-    exists ns. rewrite Hoth2 by lia. split; auto. specialize (Hle _ _ En). lia.
-  - rewrite E' in *. cbn [fst] in *. exists st'. split; [reflexivity|]. split.
-    + split; [split|split]; auto.
-      * rewrite Hoth' by lia. exact I0.
-      * rewrite Hoth' by lia. exact I1.
-      * lia.
-    + rewrite Hlog', Hlog2. reflexivity.
-Qed.
-
-Lemma pinv_run : forall ts n T st,
-  PInv n T st -> increasing T ts ->
-  exists st', run_ticks g ts st = (st', map (fun _ => None) ts) /\
-              PInv (n + length ts) (last ts T) st' /\
-              glog st' = glog st ++ window_log q w s k n ts.
-Proof.
-  induction ts as [|t ts IH]; intros n T st HI Hinc.
-  - exists st. cbn. rewrite Nat.add_0_r, app_nil_r. auto.
-  - destruct Hinc as [Ht Hinc].
-    destruct (pinv_tick n T t st HI Ht) as (st1 & E1 & HI1 & Hlog1).
-    destruct (IH (S n) t st1 HI1 Hinc) as (st' & E' & HI' & Hlog').
-    exists st'. cbn [run_ticks]. rewrite E1, E'. split; [reflexivity|]. split.
-    + rewrite last_cons. cbn [length]. now rewrite <- Nat.add_succ_comm.
-    + rewrite Hlog', Hlog1, <- app_assoc. reflexivity.
-Qed.
-
-(* every consumer captures, at every tick, exactly once, the same thing: the windowed stream's RDD *)
-Lemma window_program_log ts :
-  increasing 0 ts ->
-  run_graph g ts = (final g ts, map (fun _ => None) ts) /\
-  glog (final g ts) = window_log q w s k 0 ts.
-Proof.
-  intros Hinc. destruct (pinv_run ts 0%nat 0 _ pinv_init Hinc) as (st' & E & _ & Hlog).
-  unfold final, run_graph. rewrite E. cbn [fst]. split; [reflexivity|]. exact Hlog.
-Qed.
-End WindowProgram.
+Definition window_node_state tail :=
+  node1_state q (Window w s 0) (win_state q w s) (fun n T => eq_refl) win_S1_init win_S1_step tail.
+Definition window_rdd_after tail :=
+  node1_rdd q (Window w s 0) (win_state q w s) (win_rdd_spec q w s) (fun n T => eq_refl) (fun n T => eq_refl)
+            win_S1_init win_S1_step tail.
+Definition window_program_log k :=
+  consumers_log q (Window w s 0) (win_state q w s) (win_rdd_spec q w s) (fun n T => eq_refl) (fun n T => eq_refl)
+                win_S1_init win_S1_step k.
+End WindowInstance.
 
 (* the batch of interval i+1; nothing once the queue is exhausted *)
 Definition batch_at (q : list (list val)) (i : nat) : list val := nth i q [].
@@ -343,9 +178,12 @@ Proof.
   destruct (union_data l); [congruence|reflexivity|reflexivity].
 Qed.
 
+Lemma map_collect_win_buf q w n : map collect (win_buf q w n) = lastn (Z.to_nat w) (batches q n).
+Proof. unfold win_buf. now rewrite map_lastn, map_collect_src_rdds. Qed.
+
 (* contents of the window at an emitting interval: the last w batches, in order (fewer during start-up) *)
 Lemma obs_window q w n : obs_of (union_data (win_buf q w n)) = Some (concat (lastn (Z.to_nat w) (batches q n))).
-Proof. rewrite obs_union_data. unfold win_buf. now rewrite map_lastn, map_collect_src_rdds. Qed.
+Proof. now rewrite obs_union_data, map_collect_win_buf. Qed.
 
 Lemma lastn_batches_length q w n : length (lastn (Z.to_nat w) (batches q n)) = Nat.min (Z.to_nat w) n.
 Proof. rewrite lastn_length. unfold batches. now rewrite map_length, seq_length. Qed.
@@ -366,20 +204,29 @@ Proof.
   - rewrite Z.mod_small by lia. lia.
 Qed.
 
+Lemma win_rdd_spec_late q w s n : 0 < s -> s <= Z.of_nat n -> win_rdd_spec q w s n <> RNone.
+Proof.
+  intros Hs. induction n as [|n IH]; intros H; [lia|].
+  cbn [win_rdd_spec]. destruct (Z.of_nat (S n) mod s =? 0) eqn:E; [apply union_data_not_none|].
+  apply IH. apply Z.eqb_neq in E.
+  destruct (Z.eq_dec (Z.of_nat (S n)) s) as [Heq|Hne]; [|lia].
+  rewrite Heq, Z_mod_same_full in E. congruence.
+Qed.
+
+Definition window_log (q : list (list val)) (w s : Z) (k n : nat) (ts : list Z) : list logentry :=
+  cons_log (win_rdd_spec q w s) k n ts.
+
 Section Statements.
 Variables (q : list (list val)) (w s : Z) (tail : list node).
 Hypothesis Hs : 0 < s.
 Local Notation g := (Src q :: Window w s 0 :: tail).
-
-Lemma window_rdd_after ts : increasing 0 ts -> rdd_of (final g ts) 1 = win_rdd_spec q w s (length ts).
-Proof. intros H. unfold rdd_of. now rewrite (window_node_state q w s tail Hs ts H). Qed.
 
 (* window_spec, emitting intervals *)
 Lemma window_spec_emits ts :
   increasing 0 ts -> (0 < length ts)%nat -> Z.of_nat (length ts) mod s = 0 ->
   obs_of (rdd_of (final g ts) 1) = Some (concat (lastn (Z.to_nat w) (batches q (length ts)))).
 Proof.
-  intros Hinc Hn Hmod. rewrite window_rdd_after by assumption.
+  intros Hinc Hn Hmod. rewrite (window_rdd_after q w s Hs tail ts Hinc).
   destruct (length ts) as [|n]; [lia|]. rewrite win_rdd_spec_emit by assumption. apply obs_window.
 Qed.
 
@@ -389,13 +236,13 @@ Lemma window_spec_unchanged ts t :
   rdd_of (final g (ts ++ [t])) 1 = rdd_of (final g ts) 1.
 Proof.
   intros Hinc Hmod. pose proof (proj1 (proj1 (increasing_app 0 ts [t]) Hinc)) as Hinc'.
-  rewrite !window_rdd_after by assumption.
+  rewrite !(window_rdd_after q w s Hs tail) by assumption.
   rewrite app_length, Nat.add_1_r. now apply win_rdd_spec_keep.
 Qed.
 
 Lemma window_spec_before_first ts :
   increasing 0 ts -> Z.of_nat (length ts) < s -> rdd_of (final g ts) 1 = RNone.
-Proof. intros Hinc Hn. rewrite window_rdd_after by assumption. now apply win_rdd_spec_early. Qed.
+Proof. intros Hinc Hn. rewrite (window_rdd_after q w s Hs tail ts Hinc). now apply win_rdd_spec_early. Qed.
 
 (* the buffer holds each of the last min w n interval RDDs once, whatever is registered after the window *)
 Lemma window_buffer ts ns :
@@ -403,6 +250,12 @@ Lemma window_buffer ts ns :
   nbuf ns = lastn (Z.to_nat w) (src_rdds q (length ts)) /\ nctr ns = Z.of_nat (length ts) mod s
   /\ ntime ns = last ts 0.
 Proof.
-  intros Hinc H. rewrite (window_node_state q w s tail Hs ts Hinc) in H. inversion H; subst. cbn. auto.
+  intros Hinc H. rewrite (window_node_state q w s Hs tail ts Hinc) in H. inversion H; subst. cbn. auto.
 Qed.
 End Statements.
+
+Lemma window_consumers q w s k : 0 < s -> forall ts, increasing 0 ts ->
+  run_graph (prog_window q w s k) ts = (final (prog_window q w s k) ts, map (fun _ => None) ts) /\
+  glog (final (prog_window q w s k) ts) = window_log q w s k 0 ts.
+Proof. intros Hs ts Hinc. exact (window_program_log q w s Hs k ts Hinc). Qed.
+
